@@ -8,8 +8,7 @@ from .common import exceptions
 EXPL = ('Reaching-definition and ordering rules on the block writer (first block never omitted; summary, timestamp advance and count reset '
         'on both arms), the omitted-block marker agreement between writer (index entry 0) and reader (offset == 0 -> reconstruction), '
         'coverage of the reconstruction dispatch, who-may-store for the omission state, and that the summary is computed from memory.')
-NOT_DECIDED = ('Bit-exact reconstruction values, equality of summaries between two runs, and the reported length of a signal that ends in an '
-               'omitted partial block (jls_core_fsr_length falls back to summary entries x decimation): value arithmetic, no structural rule.')
+NOT_DECIDED = ('Bit-exact reconstruction values and equality of summaries between two runs are value arithmetic.  The reported length of a signal that ends in an omitted partial block is decided structurally (C15.7: omit only full blocks) and is a known finding.')
 
 
 def run(ctx, sess):
